@@ -357,6 +357,12 @@ func (c *Ctx) NewWatchdog() *Watchdog {
 					_ = os.MkdirAll(filepath.Join(VerifDir(), "replays"), 0o755)
 					dump := filepath.Join(VerifDir(), "replays", fmt.Sprintf("%s-seed%d-watchdog-goroutines.txt", c.ID, c.Seed))
 					_ = os.WriteFile(dump, buf[:n], 0o644)
+					if ended := UnexpectedEnds(); ended != "" {
+						// the wait cannot complete because an instance is gone, not because the code
+						// under test withheld an answer
+						c.CheckError("an instance ended by itself while " + s.sig + " was being waited for: " + ended)
+						os.Exit(c.Finish())
+					}
 					if s.progress {
 						c.Violate(s.sig, "no answer within the watchdog limit (goroutine dump: "+dump+")", s.desc)
 						os.Exit(c.Finish())
